@@ -2,8 +2,8 @@
    Only statements here; each is closed by `exact <lemma>` from proofs/P_segment.v, P_polyline_nearest.v. *)
 From Coq Require Import ZArith Reals List Bool.
 From PW Require Import Num NumR Vec NpList Result.
-From PW.model Require Import M_polyline_base M_segment M_polyline_nearest.
-From PW.proofs Require Import P_segment P_polyline_nearest P_polyline_nearest2 P_polyline_nearest3.
+From PW.model Require Import M_polyline_base M_segment M_polyline_nearest M_polyline_nearest_spec.
+From PW.proofs Require Import P_segment P_polyline_nearest P_polyline_nearest2 P_polyline_nearest3 P_polyline_nearest4.
 Import ListNotations.
 Local Open Scope R_scope.
 
@@ -73,51 +73,51 @@ Theorem C07_nearest_returns_requested_partial : forall ri rd rt rs,
 Proof. exact nearest_ret_requested_unless_only_t. Qed.
 
 (* ---- sliced_at_points / aligned_along_subsegment ---------------------------------------------------- *)
-(* Open polyline; the point nearest a and the point nearest b (the latter searched on the working polyline
-   that already contains the former as a vertex) are not within 1e-8 of a vertex, and the second lies on a
-   later edge: the result is the open path  nearest(a), original vertices strictly in between, nearest(b).
-   PARTIAL: "does not touch itself / not within 1e-3 of a vertex" enters as these explicit hypotheses; that
-   the search on the working polyline finds the same point as on the original one is not proved here.
-   The closed case (forward and wrap-around) is C07_sliced_at_points_closed_spec_partial below. *)
-Theorem C07_sliced_at_points_spec_partial : forall pl a b ra rb,
-  pclosed pl = false ->
-  nearest_one ROps pl a = Ok ra ->
-  index_of_vertex ROps (pv pl) (n_pt ra) = None ->
-  nearest_one ROps (MkPolyline (insert_at (pv pl) (S (n_idx ra)) (n_pt ra)) false) b = Ok rb ->
-  index_of_vertex ROps (insert_at (pv pl) (S (n_idx ra)) (n_pt ra)) (n_pt rb) = None ->
-  (S (n_idx ra) <= n_idx rb)%nat ->
-  sliced_at_points ROps pl a b =
-  Ok (MkPolyline (n_pt ra :: firstn (n_idx rb - S (n_idx ra)) (skipn (S (n_idx ra)) (pv pl)) ++ [n_pt rb]) false).
-Proof. exact sliced_at_points_open_forward. Qed.
-(* same hypotheses but b comes first: an open polyline refuses (this is what aligned_along_subsegment is for) *)
-Theorem C07_sliced_at_points_backward_partial : forall pl a b ra rb,
-  pclosed pl = false ->
-  nearest_one ROps pl a = Ok ra ->
-  index_of_vertex ROps (pv pl) (n_pt ra) = None ->
-  nearest_one ROps (MkPolyline (insert_at (pv pl) (S (n_idx ra)) (n_pt ra)) false) b = Ok rb ->
-  index_of_vertex ROps (insert_at (pv pl) (S (n_idx ra)) (n_pt ra)) (n_pt rb) = None ->
-  (n_idx rb <= n_idx ra)%nat ->
-  sliced_at_points ROps pl a b = Raise ValueError.
-Proof. exact sliced_at_points_open_backward. Qed.
-
-(* Closed polyline, same kind of hypotheses. ia / eb are the vertex positions at which the two nearest points are
-   inserted (the end vertex of their segment; 0 for the closing edge). If b's point comes after a's the sub-path
-   is  nearest(a), the original vertices in between, nearest(b);  otherwise it WRAPS: nearest(a), the vertices up
-   to the end of the vertex list, the vertices from the start up to b's position, nearest(b).
-   PARTIAL for the same reason as the open case (the hypotheses speak about the working polyline). *)
-Theorem C07_sliced_at_points_closed_spec_partial : forall pl a b ra rb,
-  pclosed pl = true ->
-  nearest_one ROps pl a = Ok ra ->
-  index_of_vertex ROps (pv pl) (n_pt ra) = None ->
-  nearest_one ROps (MkPolyline (insert_at (pv pl) (edge_end pl (n_idx ra)) (n_pt ra)) true) b = Ok rb ->
-  index_of_vertex ROps (insert_at (pv pl) (edge_end pl (n_idx ra)) (n_pt ra)) (n_pt rb) = None ->
-  let ia := edge_end pl (n_idx ra) in
-  let eb := edge_end (MkPolyline (insert_at (pv pl) (edge_end pl (n_idx ra)) (n_pt ra)) true) (n_idx rb) in
-  ((ia < eb)%nat -> sliced_at_points ROps pl a b =
-      Ok (MkPolyline (n_pt ra :: firstn (eb - S ia) (skipn ia (pv pl)) ++ [n_pt rb]) false)) /\
-  ((eb <= ia)%nat -> sliced_at_points ROps pl a b =
-      Ok (MkPolyline (n_pt ra :: skipn ia (pv pl) ++ firstn eb (pv pl) ++ [n_pt rb]) false)).
-Proof. exact sliced_at_points_closed. Qed.
+(* All hypotheses speak about the ORIGINAL polyline. ra, rb are the answers of nearest for a and b.
+   - "points not within 1e-3 of a vertex": neither nearest point is within the code's own tolerance (1e-8 per
+     coordinate) of a vertex, nor are the two nearest points within it of each other (weaker = more general);
+   - "the polyline does not touch itself" (near b): b's nearest point is its unique minimiser, every other segment is
+     strictly farther from b;
+   - before_on ra rb: nearest(a) comes before nearest(b) along the polyline, by (segment index, t).
+   Behind this: making a point of a segment a vertex does not change the point set, so the search on the working
+   polyline (which already contains nearest(a) as a vertex) finds the same point (P_polyline_nearest4.v). *)
+(* open polylines: nearest(a), the original vertices strictly between, nearest(b); refused when b comes first *)
+Theorem C07_sliced_at_points_open_spec : forall pl a b ra rb, pclosed pl = false ->
+  nearest_one ROps pl a = Ok ra -> nearest_one ROps pl b = Ok rb ->
+  index_of_vertex ROps (pv pl) (n_pt ra) = None -> index_of_vertex ROps (pv pl) (n_pt rb) = None ->
+  near_vertex ROps (n_pt rb) (n_pt ra) = false ->
+  (forall j s, j <> n_idx rb -> nth_error (pl_segments pl) j = Some s -> n_d rb < h_d (seg_hit_of ROps b s)) ->
+  (before_on ra rb -> sliced_at_points ROps pl a b =
+     Ok (MkPolyline (n_pt ra :: firstn (n_idx rb - n_idx ra) (skipn (S (n_idx ra)) (pv pl)) ++ [n_pt rb]) false)) /\
+  (before_on rb ra -> sliced_at_points ROps pl a b = Raise ValueError).
+Proof. exact sliced_at_points_open_spec. Qed.
+(* closed polylines: forward as above; if nearest(b) is on the closing edge the path runs to the end of the vertex
+   list; if b comes first the path WRAPS: vertices to the end of the list, then from the start up to b's segment.
+   PARTIAL: proved when nearest(a) is not on the closing edge (S (n_idx ra) < number of vertices); on the closing
+   edge the code inserts at position 0 and all indices shift — covered by correspondence + oracle only. *)
+Theorem C07_sliced_at_points_closed_spec_partial : forall pl a b ra rb, pclosed pl = true ->
+  nearest_one ROps pl a = Ok ra -> nearest_one ROps pl b = Ok rb ->
+  index_of_vertex ROps (pv pl) (n_pt ra) = None -> index_of_vertex ROps (pv pl) (n_pt rb) = None ->
+  near_vertex ROps (n_pt rb) (n_pt ra) = false ->
+  (forall j s, j <> n_idx rb -> nth_error (pl_segments pl) j = Some s -> n_d rb < h_d (seg_hit_of ROps b s)) ->
+  (S (n_idx ra) < length (pv pl))%nat ->
+  (before_on ra rb -> (S (n_idx rb) < length (pv pl))%nat -> sliced_at_points ROps pl a b =
+     Ok (MkPolyline (n_pt ra :: firstn (n_idx rb - n_idx ra) (skipn (S (n_idx ra)) (pv pl)) ++ [n_pt rb]) false)) /\
+  (before_on ra rb -> S (n_idx rb) = length (pv pl) -> sliced_at_points ROps pl a b =
+     Ok (MkPolyline (n_pt ra :: skipn (S (n_idx ra)) (pv pl) ++ [n_pt rb]) false)) /\
+  (before_on rb ra -> sliced_at_points ROps pl a b =
+     Ok (MkPolyline (n_pt ra :: skipn (S (n_idx ra)) (pv pl) ++ firstn (S (n_idx rb)) (pv pl) ++ [n_pt rb]) false)).
+Proof. exact sliced_at_points_closed_spec. Qed.
+(* the invariance behind both: a query whose unique nearest point lies on another segment keeps point, distance and
+   t when a point of segment k becomes a vertex; only the segment index is renumbered *)
+Theorem C07_nearest_invariant_under_vertex_insertion : forall pl k a b x tx,
+  nth_error (pv pl) k = Some a -> nth_error (pv pl) (S k) = Some b ->
+  x = vadd ROps a (vscale ROps tx (vsub ROps b a)) -> 0 <= tx <= 1 ->
+  forall q r, nearest_one ROps pl q = Ok r -> n_idx r <> k ->
+  (forall j s, j <> n_idx r -> nth_error (pl_segments pl) j = Some s -> n_d r < h_d (seg_hit_of ROps q s)) ->
+  nearest_one ROps (MkPolyline (insert_at (pv pl) (S k) x) (pclosed pl)) q =
+  Ok (Near (n_pt r) (if Nat.ltb (n_idx r) k then n_idx r else S (n_idx r)) (n_d r) (n_t r)).
+Proof. exact nearest_transfer. Qed.
 
 (* the orientation decision. Open: flip exactly when the point nearest p2 comes before the point nearest p1
    in (segment index, t) order. Closed: flip exactly when the sub-path from p2 to p1 is shorter than the one
@@ -158,32 +158,20 @@ Proof. exact pairs_are_rowwise. Qed.
    (backward); closed triangle (0,0,0)-(4,0,0)-(4,3,0) with a = (1,-1,0), b = (3,-1,0) (forward) and exchanged (wrap). *)
 Example C07_has_segments : pl_segments (MkPolyline [V3 0 0 0; V3 1 0 0; V3 1 0 0] true) <> [].
 Proof. cbn. discriminate. Qed.
-Example C07_sliced_open_forward_inhabited : exists pl a b ra rb,
-  pclosed pl = false /\ nearest_one ROps pl a = Ok ra /\ index_of_vertex ROps (pv pl) (n_pt ra) = None /\
-  nearest_one ROps (MkPolyline (insert_at (pv pl) (S (n_idx ra)) (n_pt ra)) false) b = Ok rb /\
-  index_of_vertex ROps (insert_at (pv pl) (S (n_idx ra)) (n_pt ra)) (n_pt rb) = None /\
-  (S (n_idx ra) <= n_idx rb)%nat.
-Proof. exact sliced_open_forward_inhabited. Qed.
-Example C07_sliced_open_backward_inhabited : exists pl a b ra rb,
-  pclosed pl = false /\ nearest_one ROps pl a = Ok ra /\ index_of_vertex ROps (pv pl) (n_pt ra) = None /\
-  nearest_one ROps (MkPolyline (insert_at (pv pl) (S (n_idx ra)) (n_pt ra)) false) b = Ok rb /\
-  index_of_vertex ROps (insert_at (pv pl) (S (n_idx ra)) (n_pt ra)) (n_pt rb) = None /\
-  (n_idx rb <= n_idx ra)%nat.
-Proof. exact sliced_open_backward_inhabited. Qed.
-Example C07_sliced_closed_forward_inhabited : exists pl a b ra rb,
-  pclosed pl = true /\ nearest_one ROps pl a = Ok ra /\ index_of_vertex ROps (pv pl) (n_pt ra) = None /\
-  nearest_one ROps (MkPolyline (insert_at (pv pl) (edge_end pl (n_idx ra)) (n_pt ra)) true) b = Ok rb /\
-  index_of_vertex ROps (insert_at (pv pl) (edge_end pl (n_idx ra)) (n_pt ra)) (n_pt rb) = None /\
-  (edge_end pl (n_idx ra) <
-   edge_end (MkPolyline (insert_at (pv pl) (edge_end pl (n_idx ra)) (n_pt ra)) true) (n_idx rb))%nat.
-Proof. exact sliced_closed_inhabited. Qed.
-Example C07_sliced_closed_wrap_inhabited : exists pl a b ra rb,
-  pclosed pl = true /\ nearest_one ROps pl a = Ok ra /\ index_of_vertex ROps (pv pl) (n_pt ra) = None /\
-  nearest_one ROps (MkPolyline (insert_at (pv pl) (edge_end pl (n_idx ra)) (n_pt ra)) true) b = Ok rb /\
-  index_of_vertex ROps (insert_at (pv pl) (edge_end pl (n_idx ra)) (n_pt ra)) (n_pt rb) = None /\
-  (edge_end (MkPolyline (insert_at (pv pl) (edge_end pl (n_idx ra)) (n_pt ra)) true) (n_idx rb) <=
-   edge_end pl (n_idx ra))%nat.
-Proof. exact sliced_closed_wrap_inhabited. Qed.
+Example C07_sliced_open_spec_inhabited : exists pl a b ra rb,
+  pclosed pl = false /\ nearest_one ROps pl a = Ok ra /\ nearest_one ROps pl b = Ok rb /\
+  index_of_vertex ROps (pv pl) (n_pt ra) = None /\ index_of_vertex ROps (pv pl) (n_pt rb) = None /\
+  near_vertex ROps (n_pt rb) (n_pt ra) = false /\
+  (forall j s, j <> n_idx rb -> nth_error (pl_segments pl) j = Some s -> n_d rb < h_d (seg_hit_of ROps b s)) /\
+  before_on ra rb.
+Proof. exact sliced_open_spec_inhabited. Qed.
+Example C07_sliced_closed_spec_inhabited : exists pl a b ra rb,
+  pclosed pl = true /\ nearest_one ROps pl a = Ok ra /\ nearest_one ROps pl b = Ok rb /\
+  index_of_vertex ROps (pv pl) (n_pt ra) = None /\ index_of_vertex ROps (pv pl) (n_pt rb) = None /\
+  near_vertex ROps (n_pt rb) (n_pt ra) = false /\
+  (forall j s, j <> n_idx rb -> nth_error (pl_segments pl) j = Some s -> n_d rb < h_d (seg_hit_of ROps b s)) /\
+  (S (n_idx ra) < length (pv pl))%nat /\ before_on ra rb /\ (S (n_idx rb) < length (pv pl))%nat.
+Proof. exact sliced_closed_spec_inhabited. Qed.
 Example C07_aligned_open_inhabited : exists pl p1 p2 r1 r2,
   pclosed pl = false /\ nearest_one ROps pl p1 = Ok r1 /\ nearest_one ROps pl p2 = Ok r2.
 Proof. exact aligned_open_inhabited. Qed.
@@ -194,6 +182,6 @@ Definition C07_all := (C07_sliced_at_points_closed_total, C07_closest_point_on_s
   C07_on_segment_uses_closest_point, C07_pairwise_is_rowwise, C07_nearest_total, C07_nearest_stacked_is_rowwise,
   C07_nearest_is_min_over_segments, C07_nearest_outputs_consistent, C07_nearest_ties_lowest_index,
   C07_nearest_returns_requested_refuted, C07_nearest_returns_requested_partial,
-  C07_sliced_at_points_spec_partial, C07_sliced_at_points_backward_partial, C07_sliced_at_points_closed_spec_partial,
+  C07_sliced_at_points_open_spec, C07_nearest_invariant_under_vertex_insertion, C07_sliced_at_points_closed_spec_partial,
   C07_aligned_along_subsegment_spec_partial).
 Print Assumptions C07_all.
